@@ -300,6 +300,7 @@ int ilu_cdrop_row(
 			fflush(stdout);
 #endif
 			nzp++;
+			SLU_VERIF_EVENT(3, first + j, 0);
 		    }
 		    break;
 		case SMILU_2:
